@@ -194,7 +194,9 @@ def cycle (cfg : Cfg) (P : Store) (now now1 : Tick) (exec : Id → Nat → Outco
     let st1 := if ex then repurpose st0 cfg.selected cfg.reason else st0
     let P1 := if ex then purge P st1 cfg.owned (known cfg) else P
     if cfg.selected.isEmpty then
-      { invoked := [], P' := P1, closed := true, delays := [] }
+      -- the `skip` path: nothing to run; the cycle is closed and whatever records the owned
+      -- handlers left behind (they are not selected any more) are purged with it
+      { invoked := [], P' := purge P1 st1 cfg.owned (known cfg), closed := true, delays := [] }
     else
       let r := execOnce cfg st1 now now1 exec
       let P2 := store P1 r.st
